@@ -41,6 +41,7 @@ type c18Case struct {
 	Data     bool         `json:"data"`           // replicate a collection with rows while the task runs
 	HostPort bool         `json:"host_port"`      // deprecated host/port form of the milvus address instead of uri
 	DBColls  bool         `json:"db_collections"` // db_collections instead of collection_infos
+	Cross    bool         `json:"cross_block"`    // the connect-param block of the downstream kind the task does NOT use carries credentials too (no address)
 	Secrets  []*c18Secret `json:"secrets"`
 }
 
@@ -134,6 +135,15 @@ func genC18Cases(seed int64, n int, thorough bool) []*c18Case {
 		}
 		if c.Cred == "sasl" || c.Cred == "all" {
 			c.Secrets = append(c.Secrets, canary("kafka.sasl.username"), canary("kafka.sasl.password"))
+		}
+		// credentials in the block of the other downstream kind (accepted by validation: only the addresses decide the kind)
+		if site.Target != "both" && (i+int(seed))%3 == 1 {
+			c.Cross = true
+			if site.Target == "milvus" {
+				c.Secrets = append(c.Secrets, canary("kafka.sasl.username"), canary("kafka.sasl.password"))
+			} else {
+				c.Secrets = append(c.Secrets, canary("milvus.token"), canary("milvus.password"))
+			}
 		}
 		out = append(out, c)
 	}
@@ -322,11 +332,24 @@ func (x *c18Exec) createReqFor(uri string) map[string]any {
 	switch x.c.Target {
 	case "kafka":
 		req["kafka_connect_param"] = x.kafkaParam(closedPort())
+		if x.c.Cross {
+			mp := x.milvusParam("")
+			delete(mp, "uri")
+			delete(mp, "host")
+			delete(mp, "port")
+			req["milvus_connect_param"] = mp
+		}
 	case "both":
 		req["milvus_connect_param"] = x.milvusParam(uri)
 		req["kafka_connect_param"] = x.kafkaParam(closedPort())
 	default:
 		req["milvus_connect_param"] = x.milvusParam(uri)
+		if x.c.Cross {
+			kp := x.kafkaParam("")
+			delete(kp, "address")
+			delete(kp, "topic")
+			req["kafka_connect_param"] = kp
+		}
 	}
 	return req
 }
